@@ -4,3 +4,4 @@ set -e
 cd "$(dirname "$0")"
 mkdir -p work evidence
 (cd harness && cargo build --offline 2>&1 | tail -3)
+(cd specs && for m in SeqTrace MCCore MCTimers MCSync ConcTrace FlatTrace FlatQueue; do tla-sany $m.tla >/dev/null 2>&1 || echo "SANY failed on $m"; done)
